@@ -3,7 +3,9 @@ package main
 import (
 	"bytes"
 	"fmt"
+	"io"
 	"sync"
+	"verif/internal/gen"
 
 	"github.com/ulikunitz/xz"
 	"github.com/ulikunitz/xz/lzma"
@@ -176,6 +178,25 @@ func checkC18(c *ev.Ctx) {
 		case 3:
 			cfg.CheckSum, cfg.BlockSize = xz.SHA256, int64(r.Range(1, dc))
 		}
+		if i%5 == 4 {
+			// the configuration variable was verified and used with another capacity before
+			final := cfg
+			cfg = xz.WriterConfig{DictCap: []int{4096, 1 << 22}[i%2]}
+			cfg.Verify()
+			if w0, err := cfg.NewWriter(io.Discard); err == nil {
+				w0.Close()
+			}
+			cfg.DictCap = final.DictCap
+			if final.BlockSize != 0 {
+				cfg.BlockSize = final.BlockSize
+			}
+			if final.BufSize != 0 {
+				cfg.BufSize = final.BufSize
+			}
+			if final.CheckSum != 0 {
+				cfg.CheckSum = final.CheckSum
+			}
+		}
 		w, err := cfg.NewWriter(&buf)
 		if err != nil {
 			c.Inconclusive(fmt.Sprintf("NewWriter DictCap=%d: %v", dc, err))
@@ -198,5 +219,45 @@ func checkC18(c *ev.Ctx) {
 			c.Sample(map[string]any{"DictCap": dc, "block_header_dict_byte": b[16], "expected": want})
 		}
 		c.Count("block_headers_checked", 1)
+	}
+	// the capacity is raised on the live writer (xz.Writer embeds its exported configuration)
+	// between two blocks: whatever the writer makes of that, the size a block header declares
+	// must cover the capacity its encoder really uses - judged by the strict reference decoder
+	// on data whose second block repeats bytes farther back than the first capacity
+	for i, caps2 := range [][2]int{{4096, 1 << 20}, {8192, 65536}, {1 << 16, 1 << 22}} {
+		id := fmt.Sprintf("hdr-live-%d", i)
+		noteCase(id)
+		if !want(c, id) {
+			continue
+		}
+		var buf bytes.Buffer
+		bs := 2*caps2[1] + 5000
+		w, err := xz.WriterConfig{DictCap: caps2[0], BlockSize: int64(bs)}.NewWriter(&buf)
+		if err != nil {
+			c.Inconclusive(fmt.Sprintf("NewWriter: %v", err))
+			continue
+		}
+		x := gen.Data(r, "random", 3000)
+		d1 := append(append([]byte{}, x...), make([]byte, bs-3000)...) // block 1
+		far := caps2[1] - 4000                                         // > old capacity, < new capacity
+		d2 := append(append(append([]byte{}, x[:1500]...), make([]byte, far-1500)...), x[:1500]...)
+		w.Write(d1)
+		w.DictCap = caps2[1]
+		w.Write(d2)
+		w.Close()
+		all := append(d1, d2...)
+		out, ss, err := ref.DecodeXZ(buf.Bytes(), 0)
+		c.Eval("hdr-live", true)
+		c.Count("live_capacity_changes_checked", 1)
+		if err != nil || !bytes.Equal(out, all) {
+			var codes []int
+			for _, st := range ss {
+				for _, bl := range st.Blocks {
+					codes = append(codes, int(bl.DictCode))
+				}
+			}
+			c.Violation("block-header-dict-byte", map[string]any{"case_id": id, "capacities": caps2, "declared_codes_seen": codes,
+				"what": fmt.Sprintf("DictCap raised from %d to %d on the live writer between two blocks: the stream is not decodable within the dictionary sizes its block headers declare: %v", caps2[0], caps2[1], err)})
+		}
 	}
 }
